@@ -155,6 +155,24 @@ def run(ctx):
             if rng.random() < 0.4:
                 recs.append(X)
             ctx.count("distance_extreme_sets")
+        if i % 9 == 4:
+            # the duplicated sequence has exactly 63/64/255/256/257/1023/1024 residues (limits of the distance kernels) and its relatives differ from it
+            # only by an insertion just before its LAST residue (neither contains the other): the last residue must count
+            # (protein: one relative inserts a residue SIMILAR to the last one -- the optimum then leaves a terminal gap -- another a dissimilar one --
+            # internal gap -- so that copies joined with different relatives would show different rows)
+            kind = "protein"
+            alpha_ = gen.AA
+            sim_ = {"L": "I", "M": "V", "K": "Q", "E": "D", "F": "W", "S": "N", "R": "H", "I": "L", "V": "M"}
+            Lb = rng.choice([63, 64, 65, 255, 256, 256, 256, 257, 1023, 1024])
+            last_ = rng.choice(sorted(sim_))
+            S_ = gen.rand_seq(rng, [ch for ch in alpha_ if ch not in (last_, sim_[last_])], Lb - 1) + last_
+            far_ = [ch for ch in "WCGP" if ch not in (last_, sim_[last_], S_[-2])]
+            recs = [S_, S_, S_[:-1] + sim_[last_] + S_[-1], S_[:-1] + rng.choice(far_) + S_[-1]]
+            if rng.random() < 0.5:
+                recs.append(S_[:-1] + rng.choice(far_) + rng.choice(far_) + S_[-1])
+            if rng.random() < 0.4:
+                recs.append(S_)
+            ctx.count("kernel_boundary_length_sets")
         rng.shuffle(recs)
         recs = [("d%d" % k, s) for k, s in enumerate(recs)]
         if not premise_ok(recs, kind):
